@@ -37,7 +37,9 @@ func main() {
 		os.Exit(3)
 	}
 	debug.SetMaxStack(*maxStack)
-	go heapWatch(*heapMax)
+	if *heapMax > 0 {
+		go heapWatch(*heapMax)
+	}
 	ctx := core.NewCtx(*prop, *tier, *config, *seed, *batch, *nbatch)
 	if *journal != "" {
 		jf, err := os.OpenFile(*journal, os.O_CREATE|os.O_RDWR|os.O_TRUNC, 0o644)
